@@ -51,7 +51,7 @@ WEIGHTS = [4, 3, 16, 8, 5, 2, 6, 3, 8, 3, 4, 3, 4, 2, 2, 4, 5, 3]
 def gen_case(run_seed: int, tier: str, index: int = 0) -> dict:
     r = Streams(run_seed).rng("workload")
     params = dict(
-        p_graphs=Streams(run_seed).rng("graphs-attr").choice([0.0, 0.0, 0.12, 0.25]), more_ops=Streams(run_seed).rng("more-ops").random() < 0.5, n_nodes=r.choice([2, 4, 6, 9]), n_inputs=r.choice([1, 2, 3]), n_inits=r.choice([0, 1, 2]), n_outputs=r.choice([1, 2]), n_functions=r.choice([0, 1]),
+        p_graphs=Streams(run_seed).rng("graphs-attr").choice([0.0, 0.0, 0.12, 0.25]), ref_graph_attrs=Streams(run_seed).rng("ref-graph-attrs").choice([0.0, 0.0, 0.6]), more_ops=Streams(run_seed).rng("more-ops").random() < 0.5, n_nodes=r.choice([2, 4, 6, 9]), n_inputs=r.choice([1, 2, 3]), n_inits=r.choice([0, 1, 2]), n_outputs=r.choice([1, 2]), n_functions=r.choice([0, 1]),
         depth=r.choice([0, 1, 2]), typed=r.random() < 0.75, p_if=r.choice([0.1, 0.3]), ir_version=r.choice([11, 11, 12, 13]), p_multi=0.2,
     )  # fmt: skip
     n = r.choice([15, 25, 40, 60])
